@@ -262,6 +262,9 @@ def run_pattern(solver, pattern, after_step=None):
                 sols.append(solver.Solve())
             elif step[0] == "local":
                 solver.DoLocalRefinement(step[1])
+            elif step[0] == "set":
+                # the user edits the public SolverParameters object between calls (e.g. raises itersLimit and solves on)
+                setattr(solver.parameters, step[1], step[2])
             else:
                 raise ValueError(step)
             if after_step is not None:
@@ -279,7 +282,8 @@ def run_solver(scn, listener=True, cap="auto", fault=None, after_step=None, insi
         hard = None
         if cap == "auto":
             steps = sum(s[1] for s in scn.get("pattern", [["solve"]]) if s[0] == "iter")
-            hard = scn["iters"] + steps + 8
+            lims = [s[2] for s in scn.get("pattern", []) if s[0] == "set" and s[1] == "itersLimit"]
+            hard = max([scn["iters"]] + lims) + steps + 8
         elif cap is not None:
             hard = cap
         problem, info = make_problem(scn, cap=hard, fault=fault)
